@@ -519,12 +519,13 @@ def has_cycle(edges):
 def cycle_job(job):
     spec = job["spec"]
     text = show_cycle(spec)
-    # structural and functional dependence coincide only without word-level operators and without nests of conditions
-    # (an Elif after an If on the same bit, or contradictory nested conditions, is structurally a path but functionally dead)
-    wl = spec["wordlevel"] or any(len(_norm_conds(st["cond"])) > 1 or any(c[0] != "if" for c in _norm_conds(st["cond"])) for st in spec["stmts"])
-    base = {"id": job["id"], "program": text, "nontrivial": True, "kind": "combinational cycles" + (" (word-level operators or nested conditions)" if wl else ""),
+    # Two oracles.  Functional (solver-derived): a bit that can influence itself must be rejected, whatever the constructs.
+    # Structural (bit-precise reading of the program text, below): for designs without word-level operators the design is
+    # rejected iff some bit structurally reaches itself (a structural path may be functionally dead, e.g. If(a): a.eq(~a)).
+    wl = spec["wordlevel"]
+    base = {"id": job["id"], "program": text, "nontrivial": True, "kind": "combinational cycles" + (" (word-level operators)" if wl else ""),
             "assertion": ("a bit that functionally depends on itself makes conversion raise CombinationalCycle" if wl else
-                          "conversion raises CombinationalCycle iff some bit functionally depends on itself (bit-precise constructs)"),
+                          "a functional self-dependency is rejected; conversion raises CombinationalCycle iff some bit structurally reaches itself (bit-precise constructs)"),
             "symbolic": "all signal values (per bit-pair sensitivity queries on one pass of the compiled comb processes)"}
     try:
         edges, nq = dependency_graph(spec)
@@ -543,10 +544,73 @@ def cycle_job(job):
     if cyc and outcome != "cycle":
         return [dict(base, status=VIOLATION, detail=text.replace(chr(10), ' | ') + f": bit {cyc[0]} depends on itself through {cyc}, yet the design is accepted",
                      signature={"kind": "cycle-missed"}, replay={"what": "cycle", "spec": spec})]
-    if not cyc and outcome == "cycle" and not wl:
-        return [dict(base, status=VIOLATION, detail=text.replace(chr(10), ' | ') + f": no bit can influence itself, yet conversion raises CombinationalCycle: {msg[:200]}",
-                     signature={"kind": "cycle-spurious"}, replay={"what": "cycle", "spec": spec})]
-    return [dict(base, status=PROVED, dependency_queries=nq, edges=len(edges), cyclic=bool(cyc), outcome=outcome)]
+    scyc = None
+    if not wl:
+        sedges = structural_edges(spec)
+        if not edges <= sedges:
+            return [dict(base, status=ERROR, detail=f"functional dependencies {sorted(edges - sedges)[:3]} missing from the structural reading of the program")]
+        scyc = has_cycle(sedges)
+        if bool(scyc) != (outcome == "cycle"):
+            what = (f"bit {scyc[0]} structurally reaches itself through {scyc}, yet the design is accepted" if scyc else
+                    f"no bit reaches itself, yet conversion raises CombinationalCycle: {msg[:200]}")
+            return [dict(base, status=VIOLATION, detail=text.replace(chr(10), ' | ') + ": " + what,
+                         signature={"kind": "cycle-missed" if scyc else "cycle-spurious"}, replay={"what": "cycle", "spec": spec})]
+    return [dict(base, status=PROVED, dependency_queries=nq, edges=len(edges), cyclic=bool(cyc), structurally_cyclic=(None if wl else bool(scyc)), outcome=outcome)]
+
+
+def _expr_bits(e, sigs):
+    """Per output bit (LSB first) the set of design-signal bits the expression's bit is wired from (bit-precise constructs)."""
+    k = e[0]
+    if k == "sig":
+        return [({(e[1], b)} if e[1] in sigs else set()) for b in range(e[2])]
+    if k == "const":
+        from vlib import refsem
+        _, (w, _s) = refsem.ref_eval(e, {})
+        return [set() for _ in range(w)]
+    if k == "slice":
+        return _expr_bits(e[1], sigs)[slice(e[2], e[3], e[4] if len(e) > 4 else None)]
+    if k == "cat":
+        out = []
+        for p_ in e[1]:
+            out += _expr_bits(p_, sigs)
+        return out
+    if k == "inv":
+        return _expr_bits(e[1], sigs)
+    if k in ("xor", "and", "or"):
+        a, b = _expr_bits(e[1], sigs), _expr_bits(e[2], sigs)
+        n = max(len(a), len(b))
+        a += [set()] * (n - len(a))
+        b += [set()] * (n - len(b))
+        return [x | y for x, y in zip(a, b)]
+    if k == "mux":
+        sel = set().union(*_expr_bits(e[1], sigs)) if _expr_bits(e[1], sigs) else set()
+        a, b = _expr_bits(e[2], sigs), _expr_bits(e[3], sigs)
+        n = max(len(a), len(b))
+        a += [set()] * (n - len(a))
+        b += [set()] * (n - len(b))
+        return [x | y | sel for x, y in zip(a, b)]
+    raise Unsupported(f"structural reading of {k}")
+
+
+def structural_edges(spec):
+    sigs = spec["signals"]
+    edges = set()
+    for st in spec["stmts"]:
+        if st["domain"] != "comb":
+            continue
+        cond_bits = set()
+        for c in _norm_conds(st["cond"]):
+            for ce in c[1:]:
+                for bs in _expr_bits(ce, sigs):
+                    cond_bits |= bs
+        t = st["target"]
+        n, lo, hi = t[1][1], t[2], t[3]
+        rb = _expr_bits(st["rhs"], sigs)
+        for k_ in range(hi - lo):
+            srcs = (rb[k_] if k_ < len(rb) else set()) | cond_bits
+            for sbit in srcs:
+                edges.add((sbit, (n, lo + k_)))
+    return edges
 
 
 # ---------------------------------------------------------------------------------------- part 3: logic vs instance / memory / buffer outputs
@@ -656,6 +720,14 @@ def corner_cycles():
     out.append({"signals": {"a0": 4, "a1": 1}, "free": free, "wordlevel": True,
                 "stmts": [{"place": "top", "domain": "comb", "target": T_("a0", 4, 1, 2),
                            "rhs": ["slice", ["bit_select", ["sig", "a0", 4, False], sl("f0", 4, 0, 2), 2], 0, 1, None], "cond": None}]})
+    # a multiplexer is wired bit by bit: a0[1] reaches itself through the data input ...
+    out.append({"signals": {"a0": 2, "a1": 2}, "free": free, "wordlevel": False,
+                "stmts": [{"place": "top", "domain": "comb", "target": T_("a0", 2, 0, 2),
+                           "rhs": ["mux", A("f2", 1), ["cat", [sl("a1", 2, 0, 1), sl("a0", 2, 1, 2)]], sl("f0", 4, 0, 2)], "cond": None}]})
+    # ... while here only a0[0] depends on a0[1], and a0[1] on nothing: legal
+    out.append({"signals": {"a0": 2, "a1": 2}, "free": free, "wordlevel": False,
+                "stmts": [{"place": "c2", "domain": "comb", "target": T_("a0", 2, 0, 2),
+                           "rhs": ["mux", A("f2", 1), ["cat", [sl("a0", 2, 1, 2), ["const", 0, 1, False]]], sl("f0", 4, 0, 2)], "cond": None}]})
     # a loop broken by a register
     out.append({"signals": {"a0": 2, "a1": 2}, "free": free, "wordlevel": False,
                 "stmts": [{"place": "c2", "domain": "sync", "target": T_("a0", 2, 0, 2), "rhs": sl("a1", 2, 0, 2), "cond": None},
